@@ -688,7 +688,9 @@ PROMOTED = "promoted-norm-run"
 
 
 def promote_norm_run(ctx, shim, env, dis, limit, judges, source):
-    """The shortest disagreeing requests of a norm-run stream, handed to shape() with their own font: the text as it is
+    """judges here take a seventh argument: the glyph count of the request's font (C09.build_font: every glyph below it has
+    the advance 600, glyphs beyond have none).
+    The shortest disagreeing requests of a norm-run stream, handed to shape() with their own font: the text as it is
     and every character of it alone, under one script per shaper (the request's mode is a property of the shaper, so
     every shaper is tried), cluster level of the request.  Judged by the model-free oracles of the lattice; nothing is
     assumed about why model and crate disagreed."""
@@ -726,22 +728,42 @@ def promote_norm_run(ctx, shim, env, dis, limit, judges, source):
         lines, ms = [f"font P {fonthex}"], []
         for tag in REPRESENTATIVES:
             for tx in texts:
+                if tag in RTL and any(unicodedata.mirrored(chr(x)) for x in tx):
+                    continue      # the mirror image's glyph is not in the character map the oracles read
+                if env.shaper[tag] == "thai" and any(C09.glyph_of(gs, x) is not None for x in range(0xF700, 0xF71B)):
+                    continue      # a font that maps the Thai private-use forms gets the shaper's PUA fallback shaping
                 tt = ",".join(f"{c:x}:{i}" for i, c in enumerate(tx))
                 lines.append(f"shape P - {tag} - 0 {level} - - - {tt}")
                 ms.append((tag, tx))
-        groups.append(lines); meta.append((d, cmap, ms))
+        if len(lines) == 1:
+            continue
+        # C09.build_font sizes hmtx by the largest glyph id, capped at 300: glyphs beyond have no advance
+        ng = 1
+        for s_, e_, g_ in gs:
+            ng = max(ng, min(65535, g_ + (e_ - s_) + 1))
+        groups.append(lines); meta.append((d, cmap, ms, gs, min(ng, 300)))
     outs = vlib.run_groups(shim, groups, timeout=900)
     n = nbad = 0
-    for (d, cmap, ms), o, g in zip(meta, outs, groups):
+    for (d, cmap0, ms, gs, ng), o, g in zip(meta, outs, groups):
         for (tag, tx), reply, req in zip(ms, o[1:], g[1:]):
             n += 1
             out = parse_reply(reply)
             res = None
+            cmap = dict(cmap0)
             if out is None:
                 res = ("no-output", {"kind": "shape() did not return normally", "reply": reply[:200]})
             else:
+                # the request's font may map far more than the relevant characters (a composite the recomposition round
+                # finds, say): a glyph of the output is read back as the ONE character mapped to it whose full
+                # decomposition lies within the text's
+                pieces = set(nfd(tx))
+                for gid in {o_[0] for o_ in out} - set(cmap.values()):
+                    cands = [s_ + (gid - g_) for s_, e_, g_ in gs if g_ <= gid <= g_ + (e_ - s_)]
+                    cands = [x for x in cands if not (0xD800 <= x <= 0xDFFF) and set(nfd([x])) <= pieces and x not in cmap]
+                    if len(cands) == 1:
+                        cmap[cands[0]] = gid
                 for j in judges:
-                    res = j(env, tag, "alone" if len(tx) == 1 else "text", tx, out, cmap)
+                    res = j(env, tag, "alone" if len(tx) == 1 else "text", tx, out, cmap, ng)
                     if res:
                         break
             if res:
@@ -751,6 +773,7 @@ def promote_norm_run(ctx, shim, env, dis, limit, judges, source):
                                   f"(script {tag}): {describe(res[1])}",
                                   {"stage": "search", "stream": PROMOTED, "oracle": res[0], "font_line": g[0], "request": req,
                                    "text": [f"{x:04X}" for x in tx], "glyph_of": {f"{x:04X}": v for x, v in cmap.items()},
+                                   "num_glyphs": ng,
                                    "script": tag, "shaper": env.shaper[tag], "deviation": res[1], "observed": reply,
                                    "from_correspondence": d["request"][:200] + " …", "impl": d["impl"], "model": d["model"]})
     ctx.note_search(PROMOTED, n, n, deviations=nbad, disagreements=len(dis),
@@ -760,7 +783,7 @@ def promote_norm_run(ctx, shim, env, dis, limit, judges, source):
     return nbad
 
 
-def replay_promoted(shim, rp, judges, adv=None):
+def replay_promoted(shim, rp, judges):
     env = Env(shim)
     o = vlib.run_groups(shim, [[rp["font_line"], rp["request"]]], nproc=1)[0]
     print("reply:", o[1])
@@ -770,7 +793,7 @@ def replay_promoted(shim, rp, judges, adv=None):
     cmap = {int(k, 16): v for k, v in rp["glyph_of"].items()}
     text = [int(x, 16) for x in rp["text"]]
     for j in judges:
-        res = j(env, rp["script"], "alone" if len(text) == 1 else "text", text, out, cmap)
+        res = j(env, rp["script"], "alone" if len(text) == 1 else "text", text, out, cmap, rp.get("num_glyphs", 300))
         if res:
             print("deviation:", res)
             return 1
@@ -822,3 +845,11 @@ def lattice_run_lines(r, n, plain_share):
         cl = list(range(len(text))) if r.chance(1, 2) else [3] * len(text)
         lines.append(C09.run_line(r.below(5), r.below(2), r.choice([None, None, 2]), groups, text, cl, [0] * len(text)))
     return lines
+
+
+def judge_conservation_p(env, tag, name, text, out, cmap, ng):
+    return judge_conservation(env, tag, name, text, out, cmap)
+
+
+def judge_own_glyph_p(env, tag, name, text, out, cmap, ng):
+    return judge_own_glyph(env, tag, name, text, out, cmap, adv=lambda g: 600 if g < ng else 0)
